@@ -126,6 +126,9 @@ type Op struct {
 	Body *Mutation `json:"body,omitempty"`
 	// Faults makes storage calls of this request fail (targets that support it).
 	Faults []FaultSpec `json:"faults,omitempty"`
+	// DeadCtx: the request arrives with a context that has already ended ("cancelled" |
+	// "expired").
+	DeadCtx string `json:"dead_ctx,omitempty"`
 }
 
 // HistCase is a whole generated case.
@@ -1259,6 +1262,13 @@ func (e *Env) Exec(t Target, o RunOpts) ([]*Step, error) {
 			armer.Arm(op.Faults)
 		}
 		ctx, cancelReq := context.WithCancel(context.Background())
+		switch op.DeadCtx {
+		case "cancelled":
+			cancelReq()
+		case "expired":
+			cancelReq()
+			ctx, cancelReq = context.WithDeadline(context.Background(), time.Now().Add(-time.Second))
+		}
 		if wt, ok := t.(WitnessTarget); ok && wt.IP != nil {
 			wt.IP.CancelRequest = cancelReq
 		}
